@@ -38,7 +38,21 @@ def gen(rng, seed):
         ins.append({'pub': last, 'form': 'all'})
         if rng.random() < 0.2:
             p.sink(f'e{i}', [{'pub': f'w{i}', 'form': 'all', 'eph': 2}], {'proc_ms': [0]})
-    p.sink('sink', ins, {'proc_ms': rng.choice([[0], [10], [100]])}, balance_in=True)
+    if rng.random() < 0.25:
+        # the joiner publishes again (its receiver is coupled with a sender state); its results may be deferred callables,
+        # some of which decide at send time that there is nothing to send
+        jb = {'proc_ms': rng.choice([[0], [10], [100]])}
+        if rng.random() < 0.7:
+            jb.update(ret='callable', callable_none_mod=rng.choice([2, 3, 4]))
+        p.relay('sink', ins, jb, balance_in=True)
+        p.sink('out', [{'pub': 'sink', 'form': 'all'}], {'proc_ms': [0]})
+        joiner_relay = True
+    else:
+        p.sink('sink', ins, {'proc_ms': rng.choice([[0], [10], [100]])}, balance_in=True)
+        joiner_relay = False
+    # listeners directly on the splitter's balanced outputs ('?' sends requests, '??' does not); they may be up before the workers
+    for j in range(rng.choice([0, 0, 1, 2])):
+        p.sink(f'q{j}', [{'pub': 'src', 'out': rng.randrange(k), 'form': 'all', 'eph': rng.choice([1, 1, 2])}], {'proc_ms': [rng.choice([0, 50])]})
     extras = []
     if rng.random() < 0.25:
         p.by_id['sink']['config']['sources_low_latency'] = True      # documented joiner setting: no prefetch
@@ -58,6 +72,12 @@ def gen(rng, seed):
         extras.append('worker-leaves')
     for n in p.nodes:
         n['start_ms'] = rng.choice([0, 0, rng.randint(0, 200)])
+    if any(n['id'].startswith('q') for n in p.nodes) and rng.random() < 0.5:
+        for n in p.nodes:
+            if n['id'].startswith('w'):
+                n['start_ms'] = rng.randint(150, 600)       # the listeners register while no worker has yet
+    if joiner_relay:
+        extras.append('joiner-publishes')
     link = {'max_delay_ms': rng.choice([0, 10, 50, 95]), 'conn_ms': [0, 30], 'sub_ms': [0, 20]}
     if rng.random() < 0.15:
         link.update(max_delay_ms=200, mode='bimodal', spike_p=0.1, spike_ms=400)
